@@ -138,12 +138,12 @@ class UTPM(Ring, RawAlgorithmsMixIn):
 
     def __setitem__(self, sl, rhs):
         if isinstance(rhs, UTPM):
-            if type(sl) == int or sl == Ellipsis or isinstance(sl, slice):
+            if not isinstance(sl, tuple):
                 sl = (sl,)
             x_data, y_data = UTPM._broadcast_arrays(self.data.__getitem__((slice(None),slice(None)) + sl), rhs.data)
             return x_data.__setitem__(Ellipsis, y_data)
         else:
-            if type(sl) == int or sl == Ellipsis or isinstance(sl, slice):
+            if not isinstance(sl, tuple):
                 sl = (sl,)
             self.data.__setitem__((slice(1,None),slice(None)) + sl, 0)
             return self.data.__setitem__((0,slice(None)) + sl, rhs)
